@@ -205,6 +205,11 @@ fn prec_cases() -> Vec<(String, String)> {
         v.push((format!("a {} (b, c)[1]", o1), format!("a {} ((b, c)[1])", o1)));
         v.push((format!("a {} (b)(c)", o1), format!("a {} ((b)(c))", o1)));
         v.push((format!("a {} (b).c", o1), format!("a {} ((b).c)", o1)));
+        // a parenthesised right operand, followed by another operator (seed C13-m9)
+        for (o2, r2) in BIN.iter() {
+            let full = if r1 >= r2 { format!("(a {} (b + c)) {} d", o1, o2) } else { format!("a {} ((b + c) {} d)", o1, o2) };
+            v.push((format!("a {} (b + c) {} d", o1, o2), full));
+        }
         // a unary operand on the right, followed by a tighter / looser operator
         for (o2, r2) in BIN.iter() {
             for u in ["not", "-"].iter() {
@@ -354,6 +359,9 @@ fn programs(family: &str) -> Vec<(String, Outcome)> {
         }
         "shape" => {
             p("start :: fn do\n    break\nend\n", Outcome::Reject);
+            p("A :: blob {\n    a: int,\n}\nf :: fn p do\n    p.nope\nend\nstart :: fn do\n    x := A { a: 1 }\n    f(x)\nend\n", Outcome::Reject);
+            p("h :: fn t do\n    t[5]\nend\nstart :: fn do\n    t := (1, 2)\n    h(t)\nend\n", Outcome::Reject);
+            p("A :: blob {\n    a: int,\n}\nf :: fn p do\n    p.nope\nend\nstart :: fn do\n    f(A { a: 1 })\nend\n", Outcome::Reject);
             p("start :: fn do\n    continue\nend\n", Outcome::Reject);
             p("start :: fn do\n    if true do\n        break\n    end\nend\n", Outcome::Reject);
             p("start :: fn do\n    loop true do\n        if true do\n            break\n        end\n    end\nend\n", Outcome::Accept);
